@@ -1,6 +1,7 @@
 import Tumfl.Theory.Idem
 import Tumfl.Theory.IdemExample
 import Tumfl.Inst.Styles
+import Tumfl.Theory.FormatTotal
 /-!
 # C15  Minifying is idempotent
 
@@ -30,5 +31,12 @@ theorem C15_idempotent_general (sty : Style) (hd : DocStyle sty) (hic : sty.incl
     (hp : parseText src = .ok (b, hs)) (h1 : format sty b = .ok t1) :
     ∃ b' hs', parseText t1 = .ok (b', hs') ∧ Printable b' ∧ denote b' = denote b ∧ format sty b' = .ok t1 :=
   format_idempotent sty hd hic hks hr hw hbs src t1 b hs hcr hp h1
+
+/-- without any hypothesis about `format`: minify, parse, minify again - the two minified texts exist and are equal -/
+theorem C15_idempotent_total (src : List Char) (b : Block) (hs : List Hint) (hcr : NoCR src) (hp : parseText src = .ok (b, hs)) :
+    ∃ t1 b' hs', formatI minifiedStyle b = .ok t1 ∧ parseText t1 = .ok (b', hs') ∧ formatI minifiedStyle b' = .ok t1 := by
+  obtain ⟨t1, h1⟩ := formatI_total_parsed minifiedStyle src b hs hp
+  obtain ⟨b', hs', h2, h3⟩ := minify_idempotent src t1 b hs hcr hp h1
+  exact ⟨t1, b', hs', h1, h2, h3⟩
 
 end Tumfl.Props
